@@ -45,6 +45,7 @@ CRATE_FINDERS = {
     "runplan": ("src/app/run.rs", "units/runplan/finder_test.rs"),
     "log": ("src/app/log.rs", "units/log/finder_test.rs"),
     "tracking": ("src/core/tracking.rs", "units/tracking/finder_test.rs"),
+    "config": ("src/core/mod.rs", "units/config/finder_test.rs"),
 }
 CACHE = os.path.join(U.VERIF, ".cache")
 
